@@ -2,6 +2,8 @@ package rules
 
 import (
 	"fmt"
+	"go/ast"
+	"go/token"
 	"go/types"
 	"os"
 	"sort"
@@ -14,6 +16,7 @@ import (
 
 // crashRec: recursion over possibly cyclic schema/document graphs must make progress.
 func crashRec(r *core.Report, cs *crashScope, extra func(site ssa.CallInstruction, callee *ssa.Function) string, cyclic func(t types.Type) bool) {
+	compAxiom := compositionAcyclic(r.Prog)
 	p := r.Prog
 	r.RunRule(cs.id+".rec", "recursion makes progress: for every call edge inside a cycle of the call graph (reachable repo functions) whose callee takes a *Schema/*SchemaRef (a possibly cyclic graph — document validation accepts recursive schemas), either an instance argument (the value, string or map being traversed) is a strict sub-component of the caller's (element of a range, index, map lookup, slice, struct field of an element), or the call is dominated by a visited-set/stack/depth test; an edge that re-passes the same instance with a sub-schema and no guard recurses forever on a cyclic schema", 3, func() {
 		cg := p.CallGraph()
@@ -200,6 +203,19 @@ func crashRec(r *core.Report, cs *crashScope, extra func(site ssa.CallInstructio
 				}
 				if progress == "" && extra != nil {
 					progress = extra(e.Site, g)
+				}
+				if progress == "" && compAxiom != "" {
+					comp := true
+					for _, part := range strings.Split(field, "|") {
+						switch part {
+						case "Schema.AllOf", "Schema.AnyOf", "Schema.OneOf", "Schema.Not":
+						default:
+							comp = false
+						}
+					}
+					if comp {
+						progress = compAxiom
+					}
 				}
 				if progress != "" {
 					edges = append(edges, edge{key, p.Pos(e.Site.Pos()), progress, true, f, g})
@@ -628,4 +644,108 @@ func derivesFromAppendOf(v ssa.Value, stack, elem *ssa.Parameter, depth int) boo
 		}
 	}
 	return false
+}
+
+// compositionAcyclic: Schema.validate rejects a schema that is one of its own oneOf/anyOf/allOf/not
+// descendants. Verified structurally: validate calls, before any VisitJSON / example check, a method
+// whose true result leads to a non-nil error; that method returns true when the receiver is on the
+// path it was given, extends the path with the receiver, and recurses over exactly the four
+// composition fields. Returns the progress argument for composition edges, "" when not verified.
+func compositionAcyclic(p *core.Prog) string {
+	pk := p.PkgOpt("openapi3")
+	if pk == nil {
+		return ""
+	}
+	info := pk.TypesInfo
+	vobj := p.FuncObjOpt("openapi3", "Schema.validate")
+	if vobj == nil {
+		return ""
+	}
+	vd := p.Decl(vobj)
+	var checker *types.Func
+	var checkPos token.Pos
+	ast.Inspect(vd.Body, func(n ast.Node) bool {
+		ifs, ok := n.(*ast.IfStmt)
+		if !ok || checker != nil {
+			return true
+		}
+		c, ok := ast.Unparen(ifs.Cond).(*ast.CallExpr)
+		if !ok {
+			return true
+		}
+		callee := core.CalleeOf(info, c)
+		if callee == nil || !core.InRepo(callee.Pkg()) {
+			return true
+		}
+		sig := callee.Type().(*types.Signature)
+		if sig.Recv() == nil || sig.Results().Len() != 1 {
+			return true
+		}
+		if b, ok := sig.Results().At(0).Type().Underlying().(*types.Basic); !ok || b.Kind() != types.Bool {
+			return true
+		}
+		// the branch returns an error value that is not nil
+		if len(ifs.Body.List) != 1 {
+			return true
+		}
+		ret, ok := ifs.Body.List[0].(*ast.ReturnStmt)
+		if !ok || len(ret.Results) != 2 || core.IsNil(info, ret.Results[1]) {
+			return true
+		}
+		cd := p.Decl(callee)
+		if cd == nil || cd.Body == nil {
+			return true
+		}
+		// the method walks exactly the composition fields and recurses into itself
+		fields := map[string]bool{}
+		recurses := false
+		scans := false
+		ast.Inspect(cd.Body, func(m ast.Node) bool {
+			switch x := m.(type) {
+			case *ast.SelectorExpr:
+				if f := core.FieldSel(info, x); f != nil {
+					if nn := core.NamedOf(info.TypeOf(x.X)); nn != nil && nn.Obj().Name() == "Schema" {
+						fields[f.Name()] = true
+					}
+				}
+			case *ast.CallExpr:
+				if core.CalleeOf(info, x) == callee {
+					recurses = true
+				}
+			case *ast.RangeStmt:
+				// for _, ancestor := range path { if ancestor == schema { return true } }
+				ast.Inspect(x.Body, func(k ast.Node) bool {
+					if r2, ok := k.(*ast.ReturnStmt); ok && len(r2.Results) == 1 {
+						if v, ok := constBool(info, r2.Results[0]); ok && v {
+							scans = true
+						}
+					}
+					return true
+				})
+			}
+			return true
+		})
+		if recurses && scans && fields["OneOf"] && fields["AnyOf"] && fields["AllOf"] && fields["Not"] && len(fields) == 4 {
+			checker = callee
+			checkPos = ifs.Pos()
+		}
+		return true
+	})
+	if checker == nil {
+		return ""
+	}
+	// the check precedes every value check made by validate (defaults, examples)
+	late := true
+	ast.Inspect(vd.Body, func(n ast.Node) bool {
+		if c, ok := n.(*ast.CallExpr); ok {
+			if callee := core.CalleeOf(info, c); callee != nil && (callee.Name() == "VisitJSON" || callee.Name() == "validateExampleValue") && c.Pos() < checkPos {
+				late = false
+			}
+		}
+		return true
+	})
+	if !late {
+		return ""
+	}
+	return "document validation rejects a schema that includes itself through oneOf/anyOf/allOf/not (Schema.validate calls " + checker.Name() + ", verified to scan its path and to follow exactly those four fields): below a validated schema the composition graph is acyclic, so this descent, which keeps the instance, visits each schema at most once before a properties/items edge consumes part of the instance"
 }
